@@ -1,6 +1,8 @@
 """C15 — at most one script execution is in flight per Nextline object.  Model A."""
 from __future__ import annotations
 
+from typing import Any
+
 from .. import common, lifecycle
 from . import _life
 
@@ -79,6 +81,54 @@ def cancel_run_case(k: int) -> dict:
         return {'k': k, 'error': f'{type(e).__name__}: {e}'}
 
 
+def overlap_reset_run_case(d: int, slow_hook: bool) -> dict:
+    """reset() from one task, run() from another d scheduler steps later (optionally with a plugin whose reset hook is slow, which
+    widens the window), then another run(): whoever wins, a child is alive only in state 'running' and there is never more than one."""
+    import asyncio
+    from .. import fakes, loop as ctl
+    from nextline.spawned import RunResult
+
+    async def main() -> dict:
+        from nextline.plugin.spec import hookimpl
+        sc = lifecycle.Scenario(0, 1, False, False)
+        await sc.setup()
+        nl = sc.nl
+        if slow_hook:
+            class Slow:
+                @hookimpl
+                async def reset(self, context: Any, reset_options: Any) -> None:
+                    for _ in range(6):
+                        await asyncio.sleep(0)
+            nl.register(Slow())
+        await sc.op('start')
+        t1 = asyncio.ensure_future(nl.reset())
+        for _ in range(d):
+            await asyncio.sleep(0)
+        t2 = asyncio.ensure_future(nl.run())
+        await asyncio.gather(t1, t2, return_exceptions=True)
+        await lifecycle.settle()
+        out: dict = {'d': d, 'slow_hook': slow_hook, 'state': nl.state, 'live': len(sc.world.live()), 'max_live': len(sc.world.live())}
+        try:
+            await asyncio.wait_for(nl.run(), timeout=5)
+        except BaseException:  # noqa
+            pass
+        await lifecycle.settle()
+        out['max_live'] = max(out['max_live'], len(sc.world.live()))
+        for c in sc.world.live():
+            c.exit(RunResult(ret=None), exitcode=0)
+        await lifecycle.settle()
+        try:
+            await asyncio.wait_for(nl.close(), timeout=5)
+        except BaseException:  # noqa
+            pass
+        return out
+    fakes.install()
+    try:
+        return ctl.run(main, ctl.Fifo())
+    except (Exception, ctl.StepBudgetExceeded) as e:  # noqa
+        return {'d': d, 'slow_hook': slow_hook, 'error': f'{type(e).__name__}: {e}'}
+
+
 def run(chk: common.Check) -> None:
     chk.cov.rule = ('serial histories (as C01) over several run cycles; the number of live simulated children is sampled after every operation; '
                     'compared with the Lean model on child starts, state publications and call results; overlapping run/run, run/reset, reset/run, '
@@ -117,6 +167,21 @@ def run(chk: common.Check) -> None:
             oracle_fail.append((c, [f'{c["max_live_children"]} child processes alive at once (overlapping calls {c["calls"]})'], None))
         if c['child_alive_at_finished']:
             oracle_fail.append((c, [f"'finished' published while a child was alive (overlapping calls {c['calls']})"], 'overlap_child_alive_at_finished'))
+    for slow_hook in (False, True):
+        for d in range(0, 5):
+            r = overlap_reset_run_case(d, slow_hook)
+            chk.cov.case(('overlap-reset-run', d, slow_hook))
+            chk.cov.count('kinds', 'overlap-reset-then-run')
+            m = []
+            if 'error' in r:
+                m.append(f'scenario failed: {r["error"]}')
+            else:
+                if r['live'] and r['state'] != 'running':
+                    m.append(f"reset() and, {d} scheduler steps later, run() from another task: state {r['state']} with {r['live']} child process(es) alive")
+                if r['max_live'] > 1:
+                    m.append(f"reset() and, {d} steps later, run() from another task, then run() again: {r['max_live']} child processes alive at once")
+            if m:
+                oracle_fail.append(({'overlap_reset_run': r}, m, None))
     for k in range(2, 10):        # (k = 1 lands in the window of open finding F-A3: the object is left in 'running' without a run)
         r = cancel_run_case(k)
         chk.cov.case(('cancel-run-caller', k))
